@@ -865,7 +865,15 @@ pub fn rb(name: &str, b: &[u8], n: usize, ours: &Result<usize, Error>, line: &st
                     let (w, o) = (header_ev(&h), ev_of_line(line).to_string());
                     if w != o {
                         let cutf = |s: &str| s.split(",hash=").next().unwrap_or("").to_string();
-                        return Err(if cutf(&w) == cutf(&o) { "FAIL:header-hashes(in-the-callback)".into() } else { "FAIL:header-fields".into() });
+                        let cuth = |s: &str| s.split(",hash=").nth(1).unwrap_or("").to_string();
+                        let mut bad: Vec<&str> = vec![];
+                        if cutf(&w) != cutf(&o) {
+                            bad.push("header-fields");
+                        }
+                        if cuth(&w) != cuth(&o) {
+                            bad.push("header-hashes(in-the-callback)");
+                        }
+                        return Err(format!("FAIL:{}", bad.join("+")));
                     }
                     let p = bsl::BlockHeader::parse(b).unwrap().parsed_owned();
                     if p.prev_blockhash() != &h.prev_blockhash.to_byte_array()[..]
